@@ -18,11 +18,11 @@ H(a, b) == (((a * 7919 + b * 104729 + (Seed % 97) * 1299709) % 1000003) * 2039) 
 Pick(set, n) == LET q == SetToSeq(set) IN q[(n % Len(q)) + 1]
 
 SampleSc(i) == [init |-> Pick(AllInits, H(i, 1)), method |-> Pick(AllMethods, H(i, 2)),
-                max |-> <<3, 3, 3, 2, 2, 1, 0>>[(H(i, 3) % 7) + 1]]
+                max |-> <<3, 3, 3, 2, 2, 1, 0>>[(H(i, 3) % 7) + 1], origin |-> Pick(AllOrigins, H(i, 5))]
 SampleLen(i) == LET l == H(i, 4) % (SampleHops + 1) IN IF l = 0 THEN SampleHops ELSE l
 
 \* sid = -1, -2: one chain of 17 redirects against the fixed limit 16 of the Get / Post helpers
-LoopSc(i) == [init |-> "same", method |-> (IF i = -1 THEN "GET" ELSE "POST"), max |-> 16]
+LoopSc(i) == [init |-> "same", method |-> (IF i = -1 THEN "GET" ELSE "POST"), max |-> 16, origin |-> "setters"]
 
 GInit ==
   \/ sid = 0 /\ Init
@@ -47,7 +47,8 @@ GNext == /\ UNCHANGED sid
 GSpec == GInit /\ [][GNext]_gvars
 
 Obs == [ init |-> [id |-> sc.init, url |-> "http://" \o SpellTab[sc.init].text \o "/d/r0",
-                   host |-> SpellTab[sc.init].canon, method |-> sc.method, max |-> sc.max],
+                   host |-> SpellTab[sc.init].canon, authority |-> SpellTab[sc.init].text,
+                   method |-> sc.method, max |-> sc.max, origin |-> sc.origin],
          hops |-> [k \in 1..Len(hops) |-> [status |-> hops[k].status, form |-> hops[k].form, target |-> hops[k].target,
                                             location |-> Location(hops[k].form, hops[k].target, k)]],
          sent |-> sent, result |-> result, sid |-> sid ]
